@@ -901,6 +901,12 @@ pub fn random_plan(rng: &mut Rng, max_size: u32) -> C11Plan {
             ("firmware/extra", true),
             ("update.spec", false),
             ("APP1/update.spec", false),
+            // unrelated files deeper down whose last path components look like a recognised path
+            ("previous/app1/update.tar.gz", false),
+            ("backup/firmware/kernel.gz", false),
+            ("old/2023/app0/update.spec", false),
+            ("firmware/firmware/update.spec", false),
+            ("app2/app2/update.tar.gz", false),
             // (a *directory* bearing a recognised file name is deliberately not generated: whether it is
             // ignored, refused or announced lies outside what the statement quantifies over)
         ];
@@ -1062,6 +1068,34 @@ impl Check for C11 {
                 fs_faults: vec![],
                 // every other one as a symbolic link to a file stored elsewhere
                 symlinks: if i % 2 == 1 { vec![0] } else { vec![] },
+            }
+        }));
+        // an unrelated file deeper in the tree whose last two path components equal a recognised path -
+        // with and without the real file next to it: only the real one is announced and served
+        fams.push(Family::new("nested_look_alike_paths", 21 * 2 * 3, true, |i, rng| {
+            let pi = (i % 21) as u8;
+            let real_present = (i / 21) % 2 == 0;
+            let prefix = ["previous", "zz/backup", "a/b/c"][(i / 42) as usize];
+            let (path, id) = ID_TABLE[pi as usize];
+            let other = ID_TABLE[((pi as usize) + 5) % 21];
+            let files = if real_present { vec![(pi, 300u32), (((pi as usize + 5) % 21) as u8, 64)] } else { vec![(((pi as usize + 5) % 21) as u8, 64)] };
+            let mut requests = vec![Req::Data { id: other.1, offset: 0 }];
+            requests.push(Req::Data { id, offset: 0 });
+            C11Plan {
+                content_seed: rng.next_u64(),
+                files,
+                extra: vec![(format!("{prefix}/{path}"), false)],
+                block: 256,
+                password: 123456,
+                requests,
+                end: End::Completion,
+                mode: Mode::Lockstep,
+                sched: Sched::whole(),
+                paced_cuts: vec![],
+                paced_gaps_ms: vec![],
+                cut: None,
+                fs_faults: vec![],
+                symlinks: vec![],
             }
         }));
         // the terminal pauses (11 s, 61 s, 1 h) at every byte position of a three-request upload: between
